@@ -327,11 +327,6 @@ class Tracer:
         return [e[1:] for e in self.events if e[0] == id(circuit_map)]
 
 
-def blocks_canon(circuit_map_blocks):
-    """[(name, qubits, [gate canon])] of a CircuitBlocks"""
-    return [[b.name, list(b.qubits), [gate_canon(g) for g in b.gates]] for b in circuit_map_blocks()]
-
-
 def run_router(spec, timeout=20.0):
     """returns dict with routed circuit, final layout, trace, initial blocks (None for star)"""
     from qibo.transpiler import router as R
@@ -345,11 +340,10 @@ def run_router(spec, timeout=20.0):
 
     def init(self_, circuit=None, blocks=None, temp=False):
         orig_init(self_, circuit, blocks, temp)
-        if not temp and blocks is None and "blocks" not in captured:
+        if not temp and blocks is None and "cm" not in captured:
             captured["cm"] = self_
-            captured["blocks"] = blocks_canon(self_.circuit_blocks)
-            captured["block_objs"] = list(self_.circuit_blocks())
-            captured["routed_input"] = [gate_canon(g) for g in circuit.queue]
+            captured["q_objs"] = list(circuit.queue)
+            captured["block_objs"] = [(b.name, tuple(b.qubits), list(b.gates)) for b in self_.circuit_blocks()]
 
     R.CircuitMap.__init__ = init
     try:
@@ -363,8 +357,9 @@ def run_router(spec, timeout=20.0):
                 info["error"] = f"{type(e).__name__}: {e}"
         if "cm" in captured:
             info["trace"] = tr.trace_of(captured["cm"])
-            info["blocks"] = captured["blocks"]
-            info["routed_input"] = captured["routed_input"]
+            info["q_objs"] = captured["q_objs"]
+            info["block_objs"] = captured["block_objs"]
+            info["finals"] = list(getattr(router, "_final_measurements", None) or [])
     finally:
         R.CircuitMap.__init__ = orig_init
     info["after"] = queue_canon(circuit)
@@ -382,7 +377,11 @@ def spec_checks(spec, info):
     if info.get("timeout"):
         return [(f"timeout:{rname}", "router did not terminate within the time limit", {})]
     if "error" in info:
-        return [(f"raises:{rname}", f"router raised {info['error']}", {"error": info["error"]})]
+        key = f"raises:{rname}"
+        if rname == "StarConnectivityRouter" and any(g[0] == "M" and len(g[1]) > 2 for g in spec["gates"]) \
+                and "more than 2 qubits" in info["error"]:
+            key = f"meas3_raises:{rname}"
+        return [(key, f"router raised {info['error']}", {"error": info["error"]})]
     routed, layout = info["routed"], info["layout"]
     wn = list(circuit.wire_names)
     # input must not be mutated
@@ -416,16 +415,11 @@ def spec_checks(spec, info):
     try:
         U = exact_operator(circuit.queue, n)
         V = exact_operator(routed.queue, n)
-        if not (is_integral(U) and is_integral(V)):
+        exact = is_integral(U) and is_integral(V)
+        if not exact and classify(spec) != "meas_basis":
             bad.append((f"inexact:{rname}", "simulation left the integers (harness problem)", {}))
-        elif not np.array_equal(V, permuted(U, l2p, n)):
-            key = f"operator:{rname}"
-            if any(g[0] == "U" and "m0" in g[2] for g in spec["gates"]):
-                key = f"stale_unitary:{rname}"
-            elif any(g[0] == "M" and "basis" in g[2] for g in spec["gates"]):
-                key = f"meas_basis:{rname}"
-            elif any(g[0] == "M" and len(g[1]) > 1 and _is_mid(spec["gates"], i) for i, g in enumerate(spec["gates"])):
-                key = f"mid_multi_meas:{rname}"
+        elif (not np.array_equal(V, permuted(U, l2p, n))) if exact else (not np.allclose(V, permuted(U, l2p, n), atol=1e-9)):
+            key = f"{classify(spec) or 'operator'}:{rname}"
             bad.append((key, "routed circuit is not P.U for the reported final layout (exact integer operator comparison)",
                         {"l2p": l2p}))
     except OverflowError:
@@ -434,11 +428,7 @@ def spec_checks(spec, info):
     want = [(m.register_name, tuple(l2p[q] for q in m.qubits)) for m in circuit.measurements]
     got = [(m.register_name, tuple(m.qubits)) for m in routed.measurements]
     if want != got:
-        key = f"measurements:{rname}"
-        if any(g[0] == "M" and len(g[1]) > 1 and _is_mid(spec["gates"], i) for i, g in enumerate(spec["gates"])):
-            key = f"mid_multi_meas:{rname}"
-        elif any(g[0] == "M" and g[2].get("collapse") for g in spec["gates"]):
-            key = f"collapse_meas:{rname}"
+        key = f"{classify(spec) or 'measurements'}:{rname}"
         bad.append((key, f"final measurement registers differ: expected {want}, got {got}", {"want": str(want), "got": str(got)}))
     else:
         rin = {m.register_name: m for m in circuit.measurements}
@@ -446,7 +436,7 @@ def spec_checks(spec, info):
             o = rin[m.register_name]
             kin = {k: v for k, v in o.init_kwargs.items() if k != "register_name"}
             kout = {k: v for k, v in m.init_kwargs.items() if k != "register_name"}
-            if kin != kout or m.result is not o.result:
+            if kin != kout:
                 bad.append((f"measurement_kwargs:{rname}", f"measurement {m.register_name}: {kin} -> {kout}", {}))
                 break
     return bad
@@ -454,3 +444,464 @@ def spec_checks(spec, info):
 
 def _is_mid(gs, i):
     return any(g[0] != "M" for g in gs[i + 1:])
+
+
+# ------------------------------------------------------------------ Coq encoding
+HEADER = ("From Coq Require Import List Arith Bool.\nImport ListNotations.\n"
+          "From QV Require Import C09.Trace C09.ModelRouter C09.ModelBlocks C09.ModelStar C09.ModelCheck.\n")
+
+
+def nl(xs):
+    return "[" + "; ".join(str(int(x)) for x in xs) + "]"
+
+
+def cgate(kind, tag, qs):
+    return f"(mkG {kind} {tag} {nl(qs)})"
+
+
+def cgates(gs):
+    return "[" + "; ".join(gs) + "]"
+
+
+def kind_of(g):
+    from qibo import gates
+    return "KM" if isinstance(g, gates.M) else "KU"
+
+
+def payload(g):
+    """everything that identifies a gate except its qubits"""
+    from qibo import gates
+    if isinstance(g, gates.M):
+        kw = {k: v for k, v in g.init_kwargs.items() if k != "register_name"}
+        return ("M", json.dumps(kw, sort_keys=True, default=str), g.init_kwargs.get("register_name"))
+    if isinstance(g, gates.Unitary):
+        return ("U", np.asarray(g.parameters[0]).tobytes())
+    return (type(g).__name__, json.dumps(g.init_kwargs, sort_keys=True, default=str))
+
+
+def parse_coq(v):
+    """Coq value made of tuples / lists / nats / bools -> Python"""
+    t = v.replace(";", ",").replace("true", "True").replace("false", "False")
+    return eval(t, {"__builtins__": {}}, {})
+
+
+def positions(spec):
+    return {w: i for i, w in enumerate(spec["wire_names"])}
+
+
+def cgraph(spec):
+    pos = positions(spec)
+    return "[" + "; ".join(f"({pos[_k(a)]}, {pos[_k(b)]})" for a, b in spec["edges"]) + "]"
+
+
+def _k(x):
+    return x
+
+
+def model_terms(spec, info):
+    """Coq terms for one traced Sabre / ShortestPaths run; None if not applicable"""
+    if "trace" not in info or "routed" not in info:
+        return None
+    n = spec["n"]
+    q_objs = info["q_objs"]
+    uid = {id(g): i + 1 for i, g in enumerate(q_objs)}
+    objs = {i + 1: g for i, g in enumerate(q_objs)}
+    finals = info["finals"]
+    for j, g in enumerate(finals):
+        uid[id(g)] = len(q_objs) + 1 + j
+        objs[len(q_objs) + 1 + j] = g
+    split = False
+    items = []
+    for (name, qs, gl) in info["block_objs"]:
+        enc = []
+        for g in gl:
+            if id(g) not in uid:
+                split = True
+                # a measurement produced by _split_multi_qubit_measurements: find its parent
+                par = [u for u, o in objs.items() if kind_of(o) == "KM" and len(o.qubits) > 1 and g.qubits[0] in o.qubits]
+                enc.append(cgate("KM", par[0] if par else 0, g.qubits))
+            else:
+                enc.append(cgate(kind_of(g), uid[id(g)], g.qubits))
+        items.append(f"(mkI {int(name)} {nl(qs)} {cgates(enc)})")
+    ops, logged = [], []
+    for (what, args, l2p, p2l) in info["trace"]:
+        if what == "swap":
+            ops.append(f"(OSwap {args[0]} {args[1]})")
+        elif what == "undo":
+            ops.append("OUndo")
+        else:
+            ops.append(f"(OExec {int(args[0])})")
+        logged.append(f"({nl(l2p)}, {nl(p2l)})")
+    body = cgates([cgate(kind_of(g), uid[id(g)], g.qubits) for g in q_objs])
+    fin = cgates([cgate("KM", uid[id(g)], g.qubits) for g in finals])
+    its = "[" + "; ".join(items) + "]"
+    t_replay = f"replay {n} {cgraph(spec)} {its} {fin} {cgates(ops)} {cgates(logged)}"
+    t_blocks = f"blocks_check {n} {body} {its}"
+    return {"replay": t_replay, "blocks": t_blocks, "objs": objs, "split": split,
+            "nops": len(ops), "nblocks": len(items)}
+
+
+def compare_model_out(model_out, real_queue, objs):
+    """model_out: [(kindnat, tag, qubits)] ; returns None or a description of the first difference"""
+    from qibo import gates
+    if len(model_out) != len(real_queue):
+        return f"length {len(model_out)} (model) vs {len(real_queue)} (implementation)"
+    for i, ((k, tag, qs), g) in enumerate(zip(model_out, real_queue)):
+        if list(qs) != list(g.qubits):
+            return f"gate {i}: qubits {qs} (model) vs {g.name}{g.qubits} (implementation)"
+        if tag == 0:
+            if not isinstance(g, gates.SWAP):
+                return f"gate {i}: inserted SWAP (model) vs {g.name} (implementation)"
+        elif payload(objs[tag]) != payload(g):
+            return f"gate {i}: different gate content, {objs[tag].name} (model) vs {g.name}"
+    return None
+
+
+def star_terms(spec, info):
+    circuit = info["circuit"]
+    n = spec["n"]
+    pos = positions(spec)
+    graph = info["graph"]
+    mids = [v for v in graph.nodes if graph.degree(v) == n - 1]
+    if n != 5 or len(mids) != 1:
+        return None
+    q = list(circuit.queue)
+    objs = {i + 1: g for i, g in enumerate(q)}
+    body = cgates([cgate(kind_of(g), i + 1, g.qubits) for i, g in enumerate(q)])
+    return {"star": f"star_check {n} {pos[mids[0]]} {cgraph(spec)} {body}", "objs": objs}
+
+
+# ------------------------------------------------------------------ case generation
+def sabre_kw(rng):
+    return dict(lookahead=rng.choice([0, 1, 2, 3]), decay_lookahead=rng.choice([0.0, 0.6, 1.0]),
+                delta=rng.choice([0.001, 0.2]), swap_threshold=rng.choice([0.5, 1.5, 3.0]),
+                seed=rng.randrange(1000))
+
+
+def fix_mid_measurements(gs, rng):
+    """every mid-circuit M gets a later gate on its qubit (so that it is a genuine mid-circuit,
+    collapsing measurement already in the input)"""
+    out = list(gs)
+    for i, g in enumerate(gs):
+        if g[0] == "M":
+            q = g[1][0]
+            if not any(h[0] != "M" and q in h[1] for h in gs[i + 1:]):
+                out.append([rng.choice(NAMED1), [q], {}])
+    return out
+
+
+def mk_spec(g, wn, gs, router):
+    return dict(n=g.number_of_nodes(), wire_names=list(wn), nodes=list(g.nodes()),
+                edges=[list(e) for e in g.edges()], gates=gs, router=router)
+
+
+def main_cases(tier, rng):
+    nmax = 6 if tier == "quick" else 8
+    nsim = 6
+    budget = 260 if tier == "quick" else 1500
+    graphs = base_graphs(nmax, rng, 8 if tier == "quick" else 30)
+    small = [(nm, g) for nm, g in graphs if g.number_of_nodes() <= nsim]
+    cases = []
+    # deterministic adversarial part: one far gate / chains on lines, rings, grids
+    for nm, g0 in graphs:
+        n = g0.number_of_nodes()
+        if not (nm.startswith("line") or nm.startswith("ring") or nm.startswith("grid")) or n < 3:
+            continue
+        nodes = sorted(g0.nodes())
+        for router in (["ShortestPaths", {"seed": 1}], ["Sabre", {"seed": 1}]):
+            gs = [["CZ", [0, n - 1], {}]]
+            cases.append(("far1:" + nm, mk_spec(g0, nodes, gs, router)))
+            gs = [["CNOT", [n - 1, 0], {}], ["U", [0, n // 2], {"m": rand_gi_matrix(rng, 2)}],
+                  ["CNOT", [n // 2, n - 1], {}], ["M", [n - 1, 0], {"register_name": "out"}]]
+            cases.append(("far3:" + nm, mk_spec(g0, nodes, gs, router)))
+    # random part
+    hows = ["id", "perm", "sparse", "str", "mixed"]
+    while len(cases) < budget:
+        nm, g0 = rng.choice(graphs if rng.random() < 0.3 else small)
+        g = label_variants(g0, rng, rng.choice(hows))
+        n = g.number_of_nodes()
+        wn = list(g.nodes())
+        rng.shuffle(wn)
+        ng = rng.randint(1, 16 if n <= nsim else 10)
+        gs = gen_gates(rng, n, ng, pmid=rng.choice([0, 0, 0.15]), style=rng.choice(["mixed", "far", "hot"]))
+        gs = fix_mid_measurements(gs, rng)
+        if rng.random() < 0.6:
+            gs += gen_trailing(rng, n)
+        r = rng.random()
+        if r < 0.55:
+            router = ["Sabre", sabre_kw(rng)]
+        else:
+            router = ["ShortestPaths", {"seed": rng.randrange(1000)}]
+        cases.append((nm, mk_spec(g, wn, gs, router)))
+    # star router on 5-node stars with every labelling style
+    star = nx.star_graph(4)
+    for k in range(40 if tier == "quick" else 200):
+        g = label_variants(_relabel(star, rng.sample(range(5), 5)), rng, rng.choice(hows))
+        wn = list(g.nodes())
+        rng.shuffle(wn)
+        gs = gen_gates(rng, 5, rng.randint(1, 14), pmid=rng.choice([0, 0.15]), style=rng.choice(["mixed", "hot"]))
+        gs = fix_mid_measurements(gs, rng)
+        if rng.random() < 0.6:
+            gs += gen_trailing(rng, 5)
+        cases.append(("star5", mk_spec(g, wn, gs, ["StarConnectivityRouter", {}])))
+    return cases
+
+
+def defect_cases(rng):
+    """small dedicated streams for behaviours outside the generators above"""
+    out = []
+    line3, line4 = nx.path_graph(3), nx.path_graph(4)
+    star = nx.star_graph(4)
+    R3 = (["Sabre", {"seed": 3}], ["ShortestPaths", {"seed": 3}])
+    # gates.Unitary whose matrix was updated after construction
+    m0, m1 = rand_gi_matrix(rng, 2), rand_gi_matrix(rng, 2)
+    gs = [["U", [1, 2], {"m0": m0, "m": m1}], ["CZ", [3, 4], {}]]
+    out.append(("stale", mk_spec(star, [0, 1, 2, 3, 4], gs, ["StarConnectivityRouter", {}])))
+    for r in R3:
+        out.append(("stale", mk_spec(line3, [0, 1, 2], [["U", [0, 2], {"m0": m0, "m": m1}]], r)))
+    # measurement in a non-Z basis (basis rotation gates are in the queue)
+    for basis in ("X", "Y"):
+        gs = [["CZ", [0, 2], {}], ["M", [0], {"basis": basis}]]
+        for r in R3:
+            out.append(("basis", mk_spec(line3, [0, 1, 2], gs, r)))
+        gs = [["CZ", [1, 2], {}], ["M", [1], {"basis": basis}]]
+        out.append(("basis", mk_spec(star, [0, 1, 2, 3, 4], gs, ["StarConnectivityRouter", {}])))
+    # multi-qubit measurement in the middle of the queue
+    gs = [["CZ", [0, 3], {}], ["M", [0, 1], {"register_name": "a"}], ["X", [0], {}], ["CZ", [1, 3], {}],
+          ["M", [2], {"register_name": "b"}]]
+    for r in R3:
+        out.append(("midmulti", mk_spec(line4, [0, 1, 2, 3], gs, r)))
+    # a non-collapsing measurement that is final on its qubit but not at the end of the queue
+    gs = [["CZ", [0, 1], {}], ["M", [1], {"register_name": "a"}], ["CZ", [0, 2], {}], ["M", [0], {"register_name": "b"}]]
+    for r in R3:
+        out.append(("nontrailing", mk_spec(line3, [0, 1, 2], gs, r)))
+    gs = [["M", [0], {"register_name": "a"}], ["CZ", [1, 2], {}], ["M", [1], {"register_name": "b"}]]
+    out.append(("nontrailing", mk_spec(star, [0, 1, 2, 3, 4], gs, ["StarConnectivityRouter", {}])))
+    return out
+
+
+def classify(spec):
+    gs = spec["gates"]
+    if any(g[0] == "U" and "m0" in g[2] for g in gs):
+        return "stale_unitary"
+    if any(g[0] == "M" and "basis" in g[2] for g in gs):
+        return "meas_basis"
+    if any(g[0] == "M" and len(g[1]) > 1 and _is_mid(gs, i) for i, g in enumerate(gs)):
+        return "mid_multi_meas"
+    for i, g in enumerate(gs):
+        if g[0] == "M" and _is_mid(gs, i) and not any(h[0] != "M" and set(h[1]) & set(g[1]) for h in gs[i + 1:]):
+            return "nontrailing_meas"
+    return None
+
+
+# ------------------------------------------------------------------ the check
+RULE = ("cases = (connectivity graph family x node relabelling x wire-name permutation x random/adversarial "
+        "circuit of exact 1- and 2-qubit gates with mid-circuit and trailing measurements x router x router "
+        "settings); a case is non-trivial when the router inserted at least one SWAP or reordered gates; "
+        "distinct = distinct (graph, wire names, circuit, router settings)")
+
+
+def theorem_obligations(run, theory="C09/Props"):
+    ok, res = vcore.static_assumptions(theory)
+    names = vcore.props_theorems(theory + ".v")
+    for nm in names:
+        if nm.endswith("_refuted"):
+            run.refuted.append(nm[:-len("_refuted")])
+        run.oblige(nm, ok and nm in res, "static theorem")
+        txt = res.get(nm, "")
+        if "Axioms:" in txt:
+            for a in txt.split("Axioms:")[1].split():
+                if a.isidentifier() or "." in a:
+                    run.axioms.add(a)
+    if not ok:
+        run.find("coq:" + theory, "static theorems do not compile / Print Assumptions failed", concrete=False)
+    run.notes.setdefault("print_assumptions", {}).update(res)
+
+
+def process(run, cases, label, found, stats, timeout):
+    """run the real routers, spec checks, and collect Coq terms"""
+    pending = []
+    for nm, spec in cases:
+        info = run_router(spec, timeout=timeout)
+        rname = spec["router"][0]
+        stats[rname] = stats.get(rname, 0) + 1
+        bad = spec_checks(spec, info)
+        nontrivial = False
+        if "routed" in info:
+            nsw = len(info["routed"].queue) - len(info["circuit"].queue)
+            nontrivial = nsw > 0 or [payload(g) for g in info["routed"].queue] != [payload(g) for g in info["circuit"].queue]
+            stats["swaps"] = stats.get("swaps", 0) + max(nsw, 0)
+        run.case([spec["nodes"], spec["edges"], spec["wire_names"], spec["gates"], spec["router"]], nontrivial)
+        if len(run.samples) < 4 and nontrivial and len(spec["gates"]) <= 8:
+            run.sample({"graph": nm, "spec": spec, "final_layout": str(info.get("layout")),
+                        "routed": [[g.name, list(g.qubits)] for g in info["routed"].queue]})
+        for key, what, extra in bad:
+            stats["spec_fail:" + key] = stats.get("spec_fail:" + key, 0) + 1
+            if key not in found:
+                found[key] = (what, {"spec": spec, "graph": nm, **extra})
+        terms = None
+        if classify(spec) == "meas_basis":
+            pass      # basis rotations are re-inserted by Circuit.add / copy: outside the router model
+        elif rname == "StarConnectivityRouter":
+            if "routed" in info:
+                terms = star_terms(spec, info)
+        else:
+            terms = model_terms(spec, info)
+        if terms:
+            pending.append((nm, spec, info, terms))
+    return pending
+
+
+def coq_batches(run, pending, label, found, stats):
+    CH = 120
+    for b in range(0, len(pending), CH):
+        chunk = pending[b:b + CH]
+        exprs = []
+        for (_, spec, info, t) in chunk:
+            if "star" in t:
+                exprs.append(t["star"])
+            else:
+                exprs += [t["replay"], t["blocks"]]
+        vals = run.coq_eval(f"C09_{label}_{b // CH}.v", HEADER, exprs, timeout=900)
+        if vals is None:
+            run.oblige(f"model_replay_{label}_{b // CH}", False, "correspondence")
+            run.find(f"coq:C09_{label}_{b // CH}", "generated correspondence file does not compile", concrete=False)
+            continue
+        run.oblige(f"model_replay_{label}_{b // CH}", True, "correspondence")
+        it = iter(vals)
+        for (nm, spec, info, t) in chunk:
+            rname = spec["router"][0]
+            routed = info["routed"]
+            wn = spec["wire_names"]
+            l2p_real = [int(info["layout"][w]) for w in wn] if isinstance(info.get("layout"), dict) and all(w in info["layout"] for w in wn) else None
+            if "star" in t:
+                ok, mout, ml2p, ts_ok = parse_coq(next(it))
+                stats["star_replayed"] = stats.get("star_replayed", 0) + 1
+                diff = None
+                if not ok:
+                    diff = "model raises, implementation returns"
+                else:
+                    diff = compare_model_out(mout, list(routed.queue), t["objs"])
+                    if diff is None and list(ml2p) != l2p_real:
+                        diff = f"final layout {ml2p} (model) vs {l2p_real}"
+                if diff is not None:
+                    key = f"{classify(spec) or 'model'}:{rname}" if classify(spec) == "stale_unitary" else f"model:{rname}"
+                    if key not in found:
+                        found[key] = ("model and implementation disagree: " + diff, {"spec": spec, "graph": nm, "model_only": key.startswith("model")})
+                elif not ts_ok:
+                    found.setdefault(f"guards:{rname}", ("the star router's decisions are not a guarded run of the transition system",
+                                                        {"spec": spec, "graph": nm}))
+                continue
+            stepped, tr_ok, front_ok, guard_ok, unr_ok, empty, mout, ml2p = parse_coq(next(it))
+            b_eq, b_reorder = parse_coq(next(it))
+            stats["traces_replayed"] = stats.get("traces_replayed", 0) + 1
+            stats["ops_replayed"] = stats.get("ops_replayed", 0) + t["nops"]
+            stats["blocks_compared"] = stats.get("blocks_compared", 0) + t["nblocks"]
+            diff = None
+            if not stepped:
+                diff = "a logged operation is undefined in the model (undo of a non-swap block / bad indices)"
+            elif not tr_ok:
+                diff = "intermediate l2p/p2l differ"
+            elif not empty:
+                diff = "blocks left unexecuted in the model"
+            else:
+                diff = compare_model_out(mout, list(routed.queue), t["objs"])
+                if diff is None and list(ml2p) != l2p_real:
+                    diff = f"final layout {ml2p} (model) vs {l2p_real}"
+            if diff is not None and not t["split"]:
+                found.setdefault(f"model:{rname}", ("model and implementation disagree: " + diff,
+                                                    {"spec": spec, "graph": nm, "model_only": True}))
+            if stepped and not unr_ok:
+                found.setdefault(f"unroute:{rname}", ("un-routing the routed blocks does not give the executed blocks", {"spec": spec, "graph": nm, "model_only": True}))
+            if stepped and not front_ok:
+                found.setdefault(f"front_layer:{rname}", ("a block was executed although an earlier remaining block shares a qubit with it",
+                                                         {"spec": spec, "graph": nm}))
+            if stepped and front_ok and not guard_ok:
+                stats["guard_fail:" + rname] = stats.get("guard_fail:" + rname, 0) + 1
+                found.setdefault(f"nonadjacent_swap:{rname}", ("a swap / block was applied on a physical pair that is not an edge (edge guard of the transition system)",
+                                                              {"spec": spec, "graph": nm}))
+            if not t["split"]:
+                if not b_eq:
+                    found.setdefault("model:block_decomposition", ("block_decomposition model and implementation disagree",
+                                                                   {"spec": spec, "graph": nm, "model_only": True}))
+                if not b_reorder:
+                    found.setdefault("blocks_reorder", ("flatten(block_decomposition(c)) is not a dependency-respecting reordering of c (verified checker)",
+                                                        {"spec": spec, "graph": nm}))
+
+
+def malformed(run, found, stats):
+    """gates on more than two qubits must be refused by every router (model: None)"""
+    from qibo import Circuit, gates
+    from qibo.transpiler import router as R
+    for rname, mk in (("Sabre", lambda g: R.Sabre(g, seed=0)), ("ShortestPaths", lambda g: R.ShortestPaths(g, seed=0)),
+                      ("StarConnectivityRouter", lambda g: R.StarConnectivityRouter(g))):
+        g = nx.star_graph(4)
+        c = Circuit(5)
+        c.add(gates.CZ(1, 2))
+        c.add(gates.TOFFOLI(0, 1, 2))
+        try:
+            with_timeout(10, mk(g), c)
+            raised = False
+        except RouterTimeout:
+            raised = False
+        except Exception:
+            raised = True
+        run.case(["malformed", rname], True)
+        stats["malformed"] = stats.get("malformed", 0) + 1
+        if not raised:
+            found.setdefault(f"accepts_3q:{rname}", ("a three-qubit gate was accepted", {"router": rname}))
+    vals = run.coq_eval("C09_malformed.v", HEADER,
+                        ["blocks_raise 5 [mkG KU 1 [1;2]; mkG KU 2 [0;1;2]]",
+                         "match star_route 5 0 [mkG KU 1 [1;2]; mkG KU 2 [0;1;2]] with None => true | _ => false end"])
+    ok = vals is not None and all(v == "true" for v in vals)
+    run.oblige("model_rejects_3q", ok, "correspondence")
+    if not ok:
+        found.setdefault("model:malformed", ("model accepts a three-qubit gate", {"model_only": True}))
+
+
+def main(run):
+    rng = random.Random(run.seed)
+    run.trusted += ["Coq 8.16.1 kernel, vm_compute",
+                    "networkx (shortest paths, floyd_warshall, transitive_reduction, topological_generations): outputs are used as oracles; the front-layer and edge guards are re-checked on every logged decision",
+                    "exact complex128 arithmetic on Gaussian integers below 2^50 (asserted) for the operator comparison; numpy tensordot/transpose",
+                    "harness: gate payload canonicalisation, run-time wrapping of CircuitMap.update/undo/execute_block"]
+    run.assumptions += ["termination of the routers is not claimed (safety only; every router call runs under a timeout)",
+                        "the semantic theorem routing_ok is stated for every interpretation of gates that is permutation-equivariant and in which gates on disjoint qubits commute (Section hypotheses); that qibo's matrices form such an interpretation is the textbook fact perm.embed = embed.perm, not proved here",
+                        "floating-point rounding is irrelevant: all compared data are integers / structures"]
+    theorem_obligations(run)
+    found, stats = {}, {}
+    t_lim = 20.0
+    cases = main_cases(run.tier, rng)
+    pend = process(run, cases, "main", found, stats, t_lim)
+    coq_batches(run, pend, "main", found, stats)
+    dcases = defect_cases(rng)
+    pend = process(run, dcases, "defects", found, stats, t_lim)
+    coq_batches(run, pend, "defects", found, stats)
+    malformed(run, found, stats)
+    for key, (what, rp) in sorted(found.items()):
+        concrete = not rp.get("model_only", False)
+        run.find(key, what, rp, concrete=concrete)
+    run.notes["stats"] = stats
+    run.notes["traces_validated_against_impl"] = stats.get("traces_replayed", 0) + stats.get("star_replayed", 0)
+    run.not_proved += ["blocks_equiv for ALL circuits (the fusion loop and the two-phase initial decomposition are checked per run by the verified reorder checker, not proved universally)",
+                       "that qibo's dense matrices satisfy the Section hypotheses of routing_ok (permutation equivariance of embed)",
+                       "termination of Sabre / ShortestPaths"]
+    return run.finish(level="proof", rule=RULE)
+
+
+def replay(run, data):
+    rp = data.get("replay", {})
+    spec = rp.get("spec")
+    if not spec:
+        print("replay: nothing to re-run for", data.get("key"))
+        return run.finish(rule="replay of one recorded case")
+    info = run_router(spec, timeout=60.0)
+    bad = spec_checks(spec, info)
+    run.case([spec["edges"], spec["wire_names"], spec["gates"], spec["router"]])
+    run.sample({"spec": spec})
+    for key, what, extra in bad:
+        print("replay reproduces:", key, what)
+        run.find(key, what, {"spec": spec, **extra})
+    if not bad:
+        print("replay: spec-level checks pass for this case (", data.get("key"), ")")
+    return run.finish(rule="replay of one recorded case")
